@@ -3,7 +3,7 @@
    evaluates the same inequality exactly and exposes [phi_near] so that the correspondence
    check can skip verdict comparison inside a relative band around the threshold. Model file. *)
 From ChitchatModel Require Import Base SMap Ids Params.
-Open Scope Z_scope.
+Local Open Scope Z_scope.
 
 Record fdconfig := mkFdCfg {
   phi_num : Z; phi_den : Z;          (* phi_threshold = phi_num / phi_den, phi_den > 0 *)
